@@ -79,8 +79,11 @@ def default_backend(eng, args, kwargs):
 
 
 def ssl_match_hostname(eng, args, kwargs):
-    # "for reference" call; absent on Python >= 3.12 (recorded as a finding in DESIGN.md);
-    # the model follows the documented contract: returns or raises CertificateError
+    # "for reference" call; the attribute is absent on Python >= 3.12: whether the installation has it
+    # is the same unknown constant that hasattr(ssl, 'match_hostname') reads (pyvc.builtins.bi_hasattr);
+    # when present the documented contract applies: returns or raises CertificateError
+    if not eng.branch(z3.Bool('env_has_ssl_match_hostname')):
+        eng.py_raise('AttributeError')
     _maybe_raise(eng, 'ssl.CertificateError', 'match_hostname')
     return NONE
 
@@ -103,7 +106,9 @@ def ext_values_for_type(eng, args, kwargs):
     elem_t = TAny('ipaddr') if kname == 'IPAddress' else TStr
     lt = TList(elem_t)
     f = z3.Function('san_values_' + kname, TAny('certext').sort(), lt.sort())
-    return V(lt, f(ext.z))
+    v = V(lt, f(ext.z))
+    eng.assume_wf(v)
+    return v
 
 
 EXTERNS.update({
@@ -337,7 +342,11 @@ def _cert_values(certz, kname):
 
 
 def sb_cert_values(eng, cert, key):
-    return _cert_values(cert.z, key.py[1].split('.')[-1])
+    kname = key.py[1].split('.')[-1]
+    ext = z3.Function('cert_ext_SUBJECT_ALTERNATIVE_NAME', TAny('cert').sort(), TAny('certext').sort())
+    lt = TList(TAny('ipaddr') if kname == 'IPAddress' else TStr)
+    eng.assume_wf(V(lt, z3.Function('san_values_' + kname, TAny('certext').sort(), lt.sort())(ext(cert.z))))
+    return _cert_values(cert.z, kname)
 
 
 def _app_sock(eng, s):
